@@ -98,7 +98,7 @@ def body(case, env):
         argv, stdin = step_cmd(t, name, v, img, undo, env, cfg)
         if argv is None: continue
         renv = {}
-        if mode == 'unfinished': renv['UNDO_IO_SIMULATE_UNFINISHED'] = '1'
+        if mode == 'unfinished' or (mode == 'dry-run' and case['seed'] % 2): renv['UNDO_IO_SIMULATE_UNFINISHED'] = '1'      # e2undo -n must not write for an unfinished recording either
         if mode == 'kill':
             argv[0] = argv[0].replace(env['asan'].b, tp.b)      # the interposer needs the gcc build
             renv.update(vrun.traced_env(os.path.join(d, 'iot.log'), os.path.basename(d) + '/u', kill_at=5 + case['seed'] % 120))
@@ -168,6 +168,7 @@ def body(case, env):
         r = vrun.run([tp.e2undo, '-n', undo, img], env=vrun.traced_env(log, 'un.img'), merge=True, cpu=120)
         wr = [(op, off) for op, off, x in vrun.parse_trace(log) if op in 'WTF']
         if wr or vrun.sha256_file(img) != post_sha: return (dict(base, kind='dry-run-wrote', writes=wr[:5], rc=r.rc), fp, True, None, classes)
+        classes.append('dry-run:' + ('unfinished-recording' if case['seed'] % 2 else 'finished-recording'))
         return (None, fp, True, dict(base, rc=r.rc), classes)
     if mode == 'wrong-device':
         other = os.path.join(d, 'other.img'); shutil.copyfile(tpl, other)
